@@ -1063,8 +1063,43 @@ def check_C02(ctx):
                      "non-trivial = snapshot re-read events and accounting records")
 
 
+def run_conc(ctx, runs, txns, writers=3, readers=4):
+    """Real threads: writers competing for the write slot, readers beginning at any time; one linearized trace
+    (reader windows from the call stamps) judged by TLC against Kv.tla"""
+    trace = os.path.join(ctx.work, "conc.ndjson")
+    p = sh([bin_path("conc"), "--seed", str(ctx.seed), "--runs", str(runs), "--txns", str(txns), "--writers", str(writers), "--readers", str(readers),
+            "--out", trace], timeout=3600, check=False)
+    if p.returncode in (-6, 134, -11, 139):
+        what = f"the multi-threaded stress (writers competing for the write slot, concurrent readers) kills the process (status {p.returncode}): " + \
+               " | ".join([l for l in p.stderr.splitlines() if "panicked" in l or "assert" in l][-3:])[:400]
+        payload = {"property": ctx.prop, "kind": "conc", "seed": ctx.seed, "runs": runs, "txns": txns, "tier": ctx.tier, "what": what, "signature": "conc:abort"}
+        raise Violation(ctx.prop, save_replay(ctx.prop, payload), what, "conc:abort")
+    if p.returncode != 0:
+        raise ToolError(f"conc failed ({p.returncode}): {p.stderr[-2000:]}")
+    stats = json.loads(p.stdout.strip().splitlines()[-1])
+    log(f"conc: {stats['commits']} commits, {stats['aborts']} aborts, {stats['readers']} readers ({stats['readers_overlapping_a_commit']} began while a "
+        f"commit was running), {stats['events']} events")
+    ok, info = tlc_trace(ctx, "KvTrace", trace, tag="-conc")
+    ctx.cov["evaluations"] += stats["events"]
+    ctx.cov["distinct_nontrivial"] += stats["readers"] + stats["commits"]
+    ctx.notes["threads"] = stats
+    if not ok:
+        rec = info["record"]
+        what = (f"threads: KvTrace rejects {rec.get('e')} {json.dumps(rec.get('obs', rec.get('r')))[:300]} of {rec.get('h', rec.get('src', 'a writer'))} "
+                f"(run {rec.get('run')}, line {rec.get('i')}): not the one serial order / one frozen snapshot the calls' stamps allow")
+        sig = "conc:" + str(rec.get("e"))
+        payload = {"property": ctx.prop, "kind": "conc", "seed": ctx.seed, "runs": runs, "txns": txns, "tier": ctx.tier, "rejected": rec, "what": what,
+                   "signature": sig}
+        raise Violation(ctx.prop, save_replay(ctx.prop, payload), what, sig)
+    ctx.cov["traces_validated_against_impl"] += stats["runs"]
+    if stats["readers_overlapping_a_commit"] < 20:
+        raise ToolError(f"vacuity: hardly any reader began while a commit was running: {stats}")
+    return stats
+
+
 def check_C03(ctx):
     build()
+    run_conc(ctx, tiered(ctx, 6, 40), tiered(ctx, 300, 1500))
     pager_design(ctx)
     run_sched(ctx, "begin_read", tiered(ctx, 40, 400))
     run_kv_walk(ctx, "mixed", tiered(ctx, 30, 300), tiered(ctx, 500, 1500), page_sizes="512,4096", caches="1048576,0")
@@ -1072,11 +1107,17 @@ def check_C03(ctx):
     ctx.cov["distinct_nontrivial"] += sum(k.get(x, 0) for x in ("cend", "br", "dump", "abort"))
     ctx.assumptions += ["preemption is modelled at every lock boundary of the anchored code paths (one model action per critical section); "
                         "data races on relaxed atomics are out of reach of this technique",
-                        "conformance under real threads covers the begin_read window; other windows are design-level only so far"]
+                        "real threads: the begin_read window is forced through a pause point; writers competing for the write slot and readers "
+                        "beginning at any time run freely (OS schedule) and are judged against the windows their call stamps allow"]
     return dict(level="model_checking", exhaustive=True,
                 rule="design: Pager.tla, all interleavings (see C02) with invariants ReaderSeesCommitted (a reader's root is a committed "
                      "version not older than its registered id), single write slot (W_Begin enabled only when no writer is live), Pinned. "
-                     "code: forced begin_read/commit interleavings judged by TLC (BeginReadStart/End window of Kv.tla); sequential histories "
+                     "code: forced begin_read/commit interleavings judged by TLC (BeginReadStart/End window of Kv.tla); free-running "
+                     "threads (3 writers competing for the write slot, each transaction rewriting two tables with its own number, 50% "
+                     "non-durable, 15% aborted; 4 readers beginning at any time and dumping twice) linearized from call stamps: a "
+                     "begin_write inside another transaction, a snapshot outside [last commit returned before the call, last commit begun "
+                     "before it returned], a snapshot older than one an earlier reader saw, a torn or changing snapshot are all rejected by "
+                     "TLC; sequential histories "
                      "with commits of all durabilities, aborts and readers validated against the serial order of Kv.tla (hist append-only, "
                      "every transaction begun after a commit sees it)")
 
@@ -1537,7 +1578,7 @@ def main(argv):
                 still = replay_crash_case(ctx, replay)
             elif payload.get("kind") == "sched":
                 still = replay_sched(ctx, payload)
-            elif payload.get("kind", "").startswith("contract") or payload.get("kind") in ("keys", "forest", "commitio"):
+            elif payload.get("kind", "").startswith("contract") or payload.get("kind") in ("keys", "forest", "commitio", "conc"):
                 ctx.seed = payload.get("seed", ctx.seed)
                 ctx.tier = payload.get("tier", ctx.tier)
                 try:
